@@ -531,6 +531,8 @@ def policies(rng, m, nhold, nrand):
     for _ in range(nrand):
         s = rng.randrange(1 << 30)
         out.append(('random:%d' % s, lambda s=s: RandomOrder(random.Random(s))))
+    sj = rng.randrange(1 << 30)      # coalescing schedule: queued writes joined into one data_received call, cut anywhere
+    out.append(('join:%d' % sj, lambda s=sj: RandomOrder(random.Random(s), split=0.7, burst=2, lazy=0.5, join=0.7)))
     out.append(('bytewise', lambda: Bytewise()))
     out.append(('reverse', lambda: ReverseLinks()))
     links = [(a, b) for a in range(m) for b in range(m) if a != b]
